@@ -50,6 +50,8 @@ var c10Files = map[string]string{
 	"/panic-runtime.jet": `{{ leak := "L" }}{{ range rS }}{{ failR() }}{{ end }}`,
 	"/ok-rich.jet":      `{{ import "/lib.jet" }}{{ range i, v := rS }}{{ yield w() v content }}{{ i }}={{ . }}{{ end }}{{ end }}{{ try }}t{{ end }}`,
 	"/probe-struct.jet": `{{ .X }}/{{ .S }}`,
+	"/embptr.jet":       `{{ try }}{{ .Nick }}{{ catch e }}caught{{ end }}|{{ .ID }}`,
+	"/embptr-raw.jet":   `{{ .Nick }}|{{ .ID }}`,
 	"/range-else.jet":   `{{ range none }}x{{ else }}none;{{ end }}{{ range k, v := mnone }}x{{ else }}mnone;{{ end }}{{ range c := cnone }}x{{ else }}cnone;{{ end }}`,
 	"/probe-nested.jet": `{{ range rows }}[{{ range . }}{{ . }}{{ end }}]{{ end }}|{{ range k, m := maps }}({{ range k2, v := m }}{{ k2 }}{{ v }}{{ end }}){{ end }}`,
 }
@@ -78,6 +80,11 @@ var c10Execs = []c10Exec{
 	{"probe-block", "/probe-block.jet", nil, nil, true},
 	{"probe-writer", "/probe-writer.jet", nil, nil, true},
 	{"probe-struct", "/probe-struct.jet", c10Vars(false), pt{3, "s"}, true},
+	// process-global caches (struct fields): the nil variants come first so that their baselines are taken
+	// before any execution has seen the non-nil shape
+	{"embptr-nil", "/embptr.jet", c10Vars(false), c10Emb{ID: 1}, true},
+	{"embptr-nil-raw", "/embptr-raw.jet", c10Vars(false), c10Emb{ID: 2}, true},
+	{"embptr-set", "/embptr.jet", c10Vars(false), c10Emb{c10Profile: &c10Profile{Nick: "nick"}, ID: 3}, false},
 	{"range-else", "/range-else.jet", c10Vars(false), "D", false},
 	{"probe-nested", "/probe-nested.jet", c10Vars(false), "D", true},
 	{"fail-top", "/fail-top.jet", c10Vars(false), "D", false},
@@ -92,6 +99,12 @@ var c10Execs = []c10Exec{
 	{"panic-string", "/panic-string.jet", c10Vars(false), "D", false},
 	{"panic-runtime", "/panic-runtime.jet", c10Vars(false), "D", false},
 	{"ok-rich", "/ok-rich.jet", c10Vars(true), "D", false},
+}
+
+type c10Profile struct{ Nick string }
+type c10Emb struct {
+	*c10Profile
+	ID int
 }
 
 type c10World struct {
